@@ -6,12 +6,13 @@ Line protocol of the C03 driver (one reply line per request line).
 
   `<kind> <op> <op> …`   run the history on `Gen.CacheTable.table` from a freshly constructed model and print,
                           after each op, the observable cache state (and the answer description of calls)
-  `X <kind> <depth> full|ops`  enumerate ALL histories up to `depth` on the model (22-symbol alphabet with the ten
+  `X <kind> <depth> full|ops`  enumerate ALL histories up to `depth` on the model (24-symbol alphabet with twelve
                           settings cells, or the 9 operation kinds) and check the executable invariant at every
                           state and `answer is current ∧ = answer of the rebuilt model` at every call
 
 kinds: exact kiss sgpr svgp usvgp
-ops:   P0..P5 P8 P9 (predict under an exact-path settings cell), Q1 Q2 (predict under accuracy-degrading settings),
+ops:   P0..P5 P8 P9 (predict under a named exact-path settings cell), Q1 Q2 (predict under accuracy-degrading settings),
+       C<mask> (predict under the settings cell `Cell.ofMask mask`: bit i = setting i of `CacheSM.settingNames`),
        R (prior-mode call), T, E, S, D Dt Di (set_train_data: both / targets only / inputs only),
        L Lo (load_state_dict: current / old-format dict without `updated_strategy`), B,
        Fo Fe Fc Fl (get_fantasy_model: ok / rejected early / raised inside deepcopy / rejected late)
@@ -23,7 +24,8 @@ def parseKind : String → Option Kind
   | "exact" => some .exact | "kiss" => some .kiss | "sgpr" => some .sgpr
   | "svgp" => some .svgp | "usvgp" => some .usvgp | _ => none
 
-def cells : List Cell := [.default, .fastPredVar, .eagerKernels, .cg, .noDetach, .skipVar, .degradedRoot, .degradedCG, .lazyJoint, .traceMode]
+def cells : List Cell := [.default, .fastPredVar, .eagerKernels, .cg, .noDetach, .skipVar, .degradedRoot, .degradedCG, .lazyJoint, .traceMode,
+  .fastPredSamples, .fastPredBoth]
 
 def parseOp : String → Option Op
   | "P0" => some (.predict .default) | "P1" => some (.predict .fastPredVar) | "P2" => some (.predict .eagerKernels)
@@ -35,7 +37,10 @@ def parseOp : String → Option Op
   | "L" => some (.loadStateDict false) | "Lo" => some (.loadStateDict true) | "B" => some .backward
   | "Fo" => some (.fantasy .ok) | "Fe" => some (.fantasy .rejectedEarly)
   | "Fc" => some (.fantasy .raisedInCopy) | "Fl" => some (.fantasy .rejectedLate)
-  | _ => none
+  | s =>
+      match s.toList with
+      | 'C' :: rest => (String.ofList rest).toNat?.map fun m => .predict (Cell.ofMask m)
+      | _ => none
 
 def slotName (s : Nat) : String := Gen.CacheTable.slotNames.getD s s!"slot{s}"
 def className (c : Nat) : String := Gen.CacheTable.classNames.getD c s!"class{c}"
@@ -77,8 +82,8 @@ def runLine (k : Kind) (ops : List Op) : String :=
 
 /-! ### exhaustive enumeration on the model -/
 
-/-- `full = true`: 6 predict cells + R T E S D L B + F (outcome the model expects) + F raising inside deepcopy
-(22 symbols: + targets-only / inputs-only set_train_data, old-format load_state_dict); `full = false`: the 9 operation kinds with predict under default settings. -/
+/-- `full = true`: 12 predict cells + R T E S D L B + F (outcome the model expects) + F raising inside deepcopy
+(24 symbols: + targets-only / inputs-only set_train_data, old-format load_state_dict); `full = false`: the 9 operation kinds with predict under default settings. -/
 def alphabet (full : Bool) : List (State → Op) :=
   let fant : State → Op := fun s => .fantasy (if fantasyAccepts T s then .ok else .rejectedEarly)
   let base : List (State → Op) :=
